@@ -259,8 +259,15 @@ func MultisetPermutations(freq []int) [][]int {
 func MultisetCombinationsFreq(m []int, k int) [][]int {
 	var out [][]int
 	cur := make([]int, 0, len(m))
+	room := make([]int, len(m)+1) // room[i] = m[i] + ... + m[len(m)-1]
+	for i := len(m) - 1; i >= 0; i-- {
+		room[i] = room[i+1] + m[i]
+	}
 	var rec func(rest int)
 	rec = func(rest int) {
+		if rest > room[len(cur)] {
+			return // the remaining types cannot take that many
+		}
 		if len(cur) == len(m) {
 			if rest == 0 {
 				out = append(out, cp(cur))
